@@ -15,7 +15,7 @@ Inductive case :=
         (obs : list (nobs * snapshot)) (fin : list (host * option (list rid) * bool))
 | CaseS (md : mode) (offs : list (string * rid * Z)) (claims : list fclaim) (snap : snapshot)
 | CaseC (outs : list tres) (chosen : option Z) (roe : bool)
-| CaseT (pre : list dev) (ops : list dop) (obs : list dobs).
+| CaseT (pre : list string) (ops : list dop) (obs : list dobs).
 
 (* ---- model state against a snapshot, over the finite universe of names the case mentions ---- *)
 Definition snap_matches (m : mgr) (hs : list host) (rs : list rid) (s : snapshot) : bool :=
